@@ -359,3 +359,35 @@ package asn1
 //@ ensures [an-odd-number-of-octets-is-refused] len(old(bmpString)) % 2 != 0 ==> result1 != nil && !dec.called
 //@ ensures [an-even-number-of-octets-is-decoded-as-utf-16] len(old(bmpString)) % 2 == 0 ==> result1 == nil && dec.called
 //@ loop 1 step-assert [units-are-big-endian-pairs-taken-in-order] len(next(s)) == len(head(s)) + 1 && next(s)[len(head(s))] == uint16(head(bmpString)[0]) << 8 + uint16(head(bmpString)[1]) && len(next(bmpString)) == len(head(bmpString)) - 2
+
+// The remaining restricted string types (as upstream): NumericString is digits and space, IA5String is
+// seven-bit, UTF8String must be valid UTF-8; the text returned is the content octets themselves.
+//@ func isNumeric
+//@ props C10
+//@ pure
+//@ ensures [digits-and-space] result <==> ((48 <= b && b <= 57) || b == 32)
+
+//@ func parseNumericString
+//@ props C10
+//@ arith int
+//@ pure
+//@ site isNumeric#1 as isn
+//@ loop 1 invariant forall j int :: 0 <= j && j <= rangeindex ==> (48 <= bytes[j] && bytes[j] <= 57) || bytes[j] == 32
+//@ ensures [accepted-exactly-when-every-octet-is-a-digit-or-space] err == nil <==> (forall j int :: 0 <= j && j < len(bytes) ==> (48 <= bytes[j] && bytes[j] <= 57) || bytes[j] == 32)
+//@ ensures [the-text-is-the-content-octets] err == nil ==> frombytes(ret, bytes)
+
+//@ func parseIA5String
+//@ props C10
+//@ arith int
+//@ pure
+//@ loop 1 invariant forall j int :: 0 <= j && j <= rangeindex ==> bytes[j] < 128
+//@ ensures [accepted-exactly-when-every-octet-is-seven-bit] err == nil <==> (forall j int :: 0 <= j && j < len(bytes) ==> bytes[j] < 128)
+//@ ensures [the-text-is-the-content-octets] err == nil ==> frombytes(ret, bytes)
+
+//@ func parseUTF8String
+//@ props C10
+//@ pure
+//@ site utf8.Valid#1 as val
+//@ ensures [accepted-exactly-when-valid-utf-8] val.called && (err == nil <==> val.res)
+//@ ensures [the-text-is-the-content-octets] err == nil ==> frombytes(ret, bytes)
+//@ at val assert [validates-the-content-octets] val.p == bytes
